@@ -268,7 +268,10 @@ fn run(c: &Case) -> Outcome {
     o.count("rounds_with_concurrency", concurrent_rounds);
     o.count("migrations", migrations);
     o.count("instance_histories", insts.len() as u64);
-    o.nontrivial = insts.len() >= 2 && concurrent_rounds >= 2 && migrations >= 1;
+    o.nontrivial = insts.len() >= 2 && concurrent_rounds >= 2;
+    if migrations >= 1 {
+        o.class("with-migration");
+    }
     o
 }
 
@@ -278,7 +281,7 @@ impl Property for C18 {
         "C18"
     }
     fn rule(&self) -> String {
-        "cases = 2..16 resampler instances (all types, f32/f64) with their own histories and a schedule assigning the construction and every call of every instance to one of 1..16 OS threads; round r runs call r of all instances concurrently (barrier release), so instances overlap with each other and migrate between threads at call boundaries. Every instance's per-step results, getters and output bits must equal those of the same history run alone on a thread of its own, and for one instance per case also those of a run alone in a pristine process. A third of the instances are near-twins of their predecessor (same parameters, ratio differing in the 6th or 10th digit, constructed on the same thread right after it); input amplitudes range down to the subnormal range. non-trivial = >= 2 instances, >= 2 rounds with at least two busy threads, >= 1 migration. distinct = distinct case JSON digest.".into()
+        "cases = 2..16 resampler instances (all types, f32/f64) with their own histories and a schedule assigning the construction and every call of every instance to one of 1..16 OS threads; round r runs call r of all instances concurrently (barrier release), so instances overlap with each other and migrate between threads at call boundaries. Every instance's per-step results, getters and output bits must equal those of the same history run alone on a thread of its own, and for one instance per case also those of a run alone in a pristine process. A third of the instances are near-twins of their predecessor (same parameters, ratio differing in the 6th or 10th digit, constructed on the same thread right after it); input amplitudes range down to the subnormal range. non-trivial = >= 2 instances and >= 2 rounds with at least two busy threads (cases with >= 1 migration are counted as a class). A third of the cases are homogeneous: every instance has the first one's configuration and a thread of its own. distinct = distinct case JSON digest.".into()
     }
     fn assumptions(&self) -> Vec<String> {
         vec!["the harness decides which thread runs which call and what overlaps, not the instruction-level interleaving; a race needing a narrow window can be missed (exploration only)".into()]
@@ -300,8 +303,8 @@ impl Property for C18 {
             Inst { cfg, seed, ops, threads, amp_exp: 0 }
         });
         let amp = prop_oneof![4 => Just(0i16), 1 => Just(-30i16), 1 => Just(-38i16), 1 => Just(-41i16), 1 => Just(-308i16), 1 => Just(-315i16)];
-        (prop_oneof![1 => 2u8..=4, 2 => 5u8..=16], proptest::collection::vec((inst, amp, 0u8..6), 2..=16))
-            .prop_map(|(n_threads, v)| {
+        (prop_oneof![1 => 2u8..=4, 2 => 5u8..=16], proptest::collection::vec((inst, amp, 0u8..6), 2..=16), 0u8..3)
+            .prop_map(|(n_threads, v, homogeneous)| {
                 let mut instances: Vec<Inst> = vec![];
                 for (mut inst, amp_exp, twin) in v {
                     inst.amp_exp = amp_exp;
@@ -322,6 +325,18 @@ impl Property for C18 {
                         }
                     }
                     instances.push(inst);
+                }
+                // a third of the cases: every instance has the configuration of the first one (own signal and history)
+                // and its own thread, so that the same code path runs on all threads at once - the situation in which a
+                // process-wide scratch buffer or table shared by one resampler type is overwritten under its user
+                if homogeneous == 0 {
+                    let c0 = instances[0].cfg.clone();
+                    for (k, i) in instances.iter_mut().enumerate() {
+                        i.cfg = c0.clone();
+                        for t in i.threads.iter_mut() {
+                            *t = k as u8;
+                        }
+                    }
                 }
                 Case { n_threads, instances }
             })
